@@ -351,8 +351,10 @@ def export_purity_obligation():
                  build_landmark(it, "PoseSE3", "e1", vs[2], vs[1], ga(p3, "value"), ga(p3, "key")[1]),
                  build_odometry(it, "PoseSE3", "e2", vs[0], vs[2]),
                  build_landmark(it, "PoseSE2", "e3", vs[3], vs[4], ident, Poly.const(0))]
-        g = it.construct("Graph", [list(edges), list(vs)])
+        given_e, given_v = list(edges), list(vs)         # the caller's lists: the graph may keep them, an export may not reorder them
+        g = it.construct("Graph", [given_e, given_v])
         sa(g, "_g2o_params", {it.hashable(ga(p3, "key"), None): p3})
+        order0 = ([id(x) for x in it.iterate(gp(g, "_edges"), None)], [id(x) for x in it.iterate(gp(g, "_vertices"), None)])
 
         def state():
             out = []
@@ -371,6 +373,11 @@ def export_purity_obligation():
             for (label, a), (_, b) in zip(before, state()):
                 if len(a) != len(b) or any(x != y for x, y in zip(a, b)):
                     raise ObFail("%s changes the %s" % (what, label))
+            if [id(x) for x in given_e] != [id(x) for x in edges] or [id(x) for x in given_v] != [id(x) for x in vs]:
+                raise ObFail("%s reorders / edits the list of edges or vertices the caller handed to the graph" % what)
+            now = ([id(x) for x in it.iterate(gp(g, "_edges"), None)], [id(x) for x in it.iterate(gp(g, "_vertices"), None)])
+            if now != order0:
+                raise ObFail("%s changes the graph's own list of edges / vertices (order or membership)" % what)
         s0 = state()
         it.call_method(g, "to_g2o", ["out.g2o"])
         unchanged(s0, "Graph.to_g2o")
